@@ -73,6 +73,14 @@ func TestEcsReplay(t *testing.T) {
 			for _, e := range ro.Option {
 				if s, ok := e.(*dns.EDNS0_SUBNET); ok && s.Family == 1 {
 					g.fwd = &net.IPNet{IP: s.Address.To4(), Mask: net.CIDRMask(int(s.SourceNetmask), 32)}
+					// an authority is free to put other options in front of the subnet option
+					switch len(gens) % 3 {
+					case 1:
+						o.Option = append(o.Option, &dns.EDNS0_NSID{Code: dns.EDNS0NSID, Nsid: "6175746831"})
+					case 2:
+						o.Option = append(o.Option, &dns.EDNS0_COOKIE{Code: dns.EDNS0COOKIE, Cookie: "00112233445566778899aabbccddeeff"},
+							&dns.EDNS0_EDE{InfoCode: dns.ExtendedErrorCodeOther, ExtraText: "x"})
+					}
 					o.Option = append(o.Option, &dns.EDNS0_SUBNET{Code: dns.EDNS0SUBNET, Family: 1,
 						SourceNetmask: s.SourceNetmask, SourceScope: uint8(curScope), Address: s.Address})
 				}
